@@ -181,8 +181,13 @@ def run_body(test, case, col, origin, timeout=20, tape=None):
         col.timeouts += 1
         return None
     except RecursionError as e:
+        sig = exc_sig("unexpected-exception", e)
+        if sig.endswith("outside-valida"):
+            # the harness's own recursion ran out (model / snapshot on a very deep term): inconclusive, not a finding
+            col.timeouts += 1
+            return None
         out = Outcome()
-        out.violations.append(V("unexpected-exception", exc_sig("unexpected-exception", e), exc_detail(e)))
+        out.violations.append(V("unexpected-exception", sig, exc_detail(e)))
     except Exception as e:
         sig = exc_sig("unexpected-exception", e)
         if sig.endswith("outside-valida"):
